@@ -437,6 +437,119 @@ def cross_version(ctx):
                     break
 
 
+def table_isolation(ctx, dec):
+    """A descriptor is "in no table" when neither the WMO tables of the message's version nor the local tables the message names
+    define it - whatever OTHER tables (another local table set on the same WMO version, a later WMO version) this process has
+    loaded before.  Table groups are built here in a hostile order: the group that defines an id first, then (cache emptied, so it
+    is built now) the group that does not; a message of the second group that uses the id must be refused with UnknownDescriptor,
+    and ids defined by both get their own group's attributes."""
+    from pybufrkit.errors import UnknownDescriptor
+    from pybufrkit.tables import TableGroupCacheManager
+    rng = ctx.rng
+    locs = R.local_table_dirs()
+    versions = R.wmo_versions()
+    plans = []
+    for n, (ce, su, lv, _p) in enumerate(locs):
+        v = [33, versions[(ctx.seed + n) % len(versions)], 33][n % 3] if ctx.quick else rng.choice(versions)
+        others = [x for x in locs if x[:3] != (ce, su, lv)]
+        plans.append(('local', (ce, su, lv), v, rng.choice(others)[:3] if others else None))
+    for n in range(2 if ctx.quick else 8):
+        a, b = sorted(rng.sample(versions, 2))
+        plans.append(('wmo', b, a, None))
+    for pn, (kind, donor, v, other) in enumerate(plans):
+        if not ctx.mine(pn):
+            continue
+        if kind == 'local':
+            ce, su, lv = donor
+            Bd, Dd = R.load_tables(0, ce, su, v, lv)
+            donor_meta = dict(master_table_version=v, originating_centre=ce, originating_subcentre=su, local_table_version=lv)
+            receivers = [dict(master_table_version=v)]
+            if other:
+                receivers.append(dict(master_table_version=v, originating_centre=other[0], originating_subcentre=other[1],
+                                      local_table_version=other[2]))
+        else:
+            Bd, Dd = R.load_tables(0, 0, 0, donor, 0)
+            donor_meta = dict(master_table_version=donor)
+            receivers = [dict(master_table_version=v)]
+        for rmeta in receivers:
+            Br, Dr = R.load_tables(0, rmeta.get('originating_centre', 0), rmeta.get('originating_subcentre', 0),
+                                   rmeta['master_table_version'], rmeta.get('local_table_version', 0))
+            only_b = sorted(e for e in Bd if e not in Br)
+            only_d = sorted(q for q in Dd if q not in Dr)
+            rng.shuffle(only_b)
+            rng.shuffle(only_d)
+            # sequences whose members the receiver knows are the interesting ones: nothing else could refuse the message
+            only_d.sort(key=lambda q: not all(m in Br or m // 100000 in (1, 2) for m in expand_safe(Dd, Dd[q])))
+            try:
+                TableGroupCacheManager.invalidate()
+            except Exception:
+                ctx.count('isolation_invalidate_unavailable')
+            try:
+                dec.process(R.build_message([1001, 1002], Bd, Dd, R.Policy(rng), 1, False, 4, donor_meta).bytes)
+            except Exception as e:
+                ctx.violate('isolation/donor-decode-raises:%s' % type(e).__name__, 'decoding a plain message under %r raised %r' % (donor_meta, e),
+                            dict(part='isolation', donor=donor_meta), exc=e)
+                continue
+            for bad in only_b[:(3 if ctx.quick else 12)] + only_d[:(4 if ctx.quick else 16)]:
+                for comp in (False, True):
+                    msg = R.build_message([1001, 12001, 2001], Br, Dr, R.Policy(rng), 2, comp, 4, rmeta)
+                    fr = R.parse_frame(msg.bytes)
+                    st = fr.sections[3][0] + 7 + 2
+                    b = bytearray(msg.bytes)
+                    b[st] = ((bad // 100000) << 6) | (bad // 1000 % 100)
+                    b[st + 1] = bad % 1000
+                    spec = dict(part='isolation', donor=donor_meta, message=rmeta, substituted=bad, compressed=comp, hex=bytes(b).hex())
+                    ctx.count('isolation_cases')
+                    ctx.evaluated(('iso', kind, str(donor), str(sorted(rmeta.items())), bad, comp), True)
+                    try:
+                        dec.process(bytes(b))
+                        ctx.violate('isolation/decoded/defined-by-other-%s-tables' % kind,
+                                    'descriptor %06d is defined only by the tables of %r; a message naming %r that uses it decoded without '
+                                    'error after those tables had been loaded' % (bad, donor_meta, rmeta), spec)
+                    except UnknownDescriptor:
+                        ctx.count('isolation_raised_unknown_descriptor')
+                    except Exception as e:
+                        ctx.violate('isolation/wrong-exception:%s/%s' % (type(e).__name__, kind),
+                                    'descriptor %06d (only in the tables of %r) in a message naming %r: raised %s instead of UnknownDescriptor'
+                                    % (bad, donor_meta, rmeta, type(e).__name__), spec, exc=e)
+            # ids both define, differently: the receiver's own attributes / members
+            both_b = [e for e in sorted(Bd) if e in Br and Bd[e][2:5] != Br[e][2:5]]
+            both_d = [q for q in sorted(Dd) if q in Dr and Dd[q] != Dr[q]]
+            rng.shuffle(both_b)
+            rng.shuffle(both_d)
+            try:
+                from pybufrkit.descriptors import flat_member_ids
+                tg = TableGroupCacheManager.get_table_group(**{k: x for k, x in rmeta.items()})
+                for e in both_b[:6]:
+                    ctx.count('isolation_shared_ids')
+                    el = tg.template_from_ids(e).members[0]
+                    if (el.scale, el.refval, el.nbits) != tuple(Br[e][2:5]):
+                        ctx.violate('isolation/element-attributes-of-other-tables', 'element %06d under %r has %r, its own tables give %r (tables of %r '
+                                    'loaded before)' % (e, rmeta, (el.scale, el.refval, el.nbits), Br[e][2:5], donor_meta),
+                                    dict(part='isolation', donor=donor_meta, message=rmeta, id=e))
+                for q in both_d[:6]:
+                    ctx.count('isolation_shared_ids')
+                    try:
+                        want = expand(Dr, [q])
+                    except (KeyError, RecursionError):
+                        continue
+                    got = flat_member_ids(tg.template_from_ids(q))
+                    if got != want:
+                        ctx.violate('isolation/sequence-members-of-other-tables', 'sequence %06d under %r flattens to %d ids, its own tables give %d '
+                                    '(tables of %r loaded before)' % (q, rmeta, len(got), len(want), donor_meta),
+                                    dict(part='isolation', donor=donor_meta, message=rmeta, id=q))
+            except Exception as e:
+                ctx.violate('isolation/shared-ids-exception:%s' % type(e).__name__, 'building templates under %r raised %r' % (rmeta, e),
+                            dict(part='isolation', donor=donor_meta, message=rmeta), exc=e)
+
+
+def expand_safe(D, ids):
+    try:
+        return expand(D, ids)
+    except (KeyError, RecursionError):
+        return [999999]
+
+
 def with_extra_entries(ctx):
     """LAST step (it changes process-wide state the way an in-stream definition message does): with one unrelated extra Table B
     entry registered, every bundled sequence still builds the same tree and flattens to the same lists"""
@@ -547,6 +660,7 @@ def run(ctx):
     from pybufrkit.tables import TableGroupCacheManager
     from pybufrkit.decoder import Decoder
     dec = Decoder()
+    table_isolation(ctx, dec)      # first: the table groups it builds must be the first of their kind in this process
     versions = R.wmo_versions()
     if ctx.quick:
         k = ctx.seed % len(versions)
